@@ -180,4 +180,6 @@ def run(ctx):
         T.clause_tables(R, F, dm, only_fields=chain_tables)
     # lookups answer the same whether or not the rows were committed: cache before disk, unset shadows disk
     T.clause_read_merge(R, F, scans=("get_range",))
+    # a drained transaction is indexed under its own inscription id (and runs with its own stored data)
+    ER.clause_drain_own_data(R, F)
     return R
